@@ -357,6 +357,18 @@ def _single_violation(rule, k):
     elif rule == "resCollides":
         oown["args"] = [A(["info", "ctx"][k], N("Int"))]
         oown["resolver"] = "root, ctx, info, **kw"
+    elif rule == "argDefault":
+        a = A(x, [N("Int"), ("nonNull", N("Int"))][k]); a["default"] = "1"; a["default_py"] = ["no", None][k]
+        oown["args"] = [a]
+        oown["name"] = own
+    elif rule == "dirArgDefault":
+        a = A(x, [N("Int"), ("nonNull", N("Int"))][k]); a["default"] = "1"; a["default_py"] = ["no", None][k]
+        d["directives"].append({"name": "d" + sfx, "locations": ["FIELD"], "desc": None, "args": [a]})
+    elif rule == "inputFieldDefault":
+        a = A("o" + sfx, [N("Int"), ("nonNull", N("Int"))][k]); a["default"] = "1"; a["default_py"] = ["no", None][k]
+        T[In]["fields"].append(a)
+    elif rule == "enumValueNone":
+        T[E]["values"].append({"name": "N" + sfx, "deprecated": None, "desc": None, "py_value": None})
     elif rule == "resNotCallable":
         oown["resolver"] = "!not-callable"
         oown["name"] = own + "x" * k
